@@ -54,11 +54,22 @@ def addLocation (r : Rearranger) (ip ones : Nat) (loc : Bytes) : Rearranger :=
     { r with points := r.points ++ [⟨start, ones, some loc, .start⟩]
         ++ (if last = veryLastIP then [] else [⟨last + 1, ones, none, .stop⟩]) }
 
-/-- the comparator of the `sort.Slice` call: `true` = strictly before -/
+/-- `rangeFrom` of an end point: the first address of the range that ends there. The model does not
+store it; it is determined by the point: a declared block `[start, start + 2^(128-ones))` ends at
+`ip = start + 2^(128-ones)` with `maskLen = ones`, and the only end point with mask length 0 is the
+implicit IPv4 null range's (`::/0` has no end point), which starts at `firstIPv4`. -/
+def rangeFromOf (p : Point) : Nat :=
+  if p.maskLen = 0 then firstIPv4 else p.ip - 2 ^ (128 - p.maskLen)
+
+/-- the comparator of the `sort.Slice` call: `true` = strictly before. Of two end points at one
+address the innermost range (the one that starts last) comes first, then the longest prefix (since
+the repair; before it only the prefix length was compared, which put the end of an IPv6 block ending
+at `afterIPv4` before the end of the implicit IPv4 null range nested in it). -/
 def pointLt (a b : Point) : Bool :=
   if a.ip ≠ b.ip then a.ip < b.ip
   else if a.kind ≠ b.kind then a.kind = .stop
   else if a.kind = .start then a.maskLen < b.maskLen
+  else if rangeFromOf a ≠ rangeFromOf b then rangeFromOf a > rangeFromOf b
   else a.maskLen > b.maskLen
 
 def insertPoint (p : Point) : List Point → List Point
@@ -75,19 +86,31 @@ def sweep : List Point → List (Nat × Option Bytes) → Option (List Point)
   | [], _ => some []
   | p :: rest, stack =>
     match p.kind with
-    | .start => (sweep rest ((p.maskLen, p.loc) :: stack)).map (p :: ·)
+    | .start =>
+      -- `resumesIPv6`: the pseudo start point right after the IPv4 range (the only start points at
+      -- `afterIPv4` with mask length 0: `::/0`'s and the implicit one). When a declared IPv6 range
+      -- contains the IPv4 range (`stackTop > 0`) that range simply continues: no push (since the
+      -- repair; before it the point was pushed like any other and unbalanced the stack)
+      if p.ip = afterIPv4 ∧ p.maskLen = 0 ∧ stack.length > 1 then
+        match stack with
+        | (m, l) :: _ => (sweep rest stack).map ({ p with maskLen := m, loc := l } :: ·)
+        | [] => none
+      else (sweep rest ((p.maskLen, p.loc) :: stack)).map (p :: ·)
     | .stop =>
       match stack with
       | _ :: (m, l) :: below => (sweep rest ((m, l) :: below)).map ({ p with maskLen := m, loc := l } :: ·)
       | _ => none
 
 /-- squash: of consecutive points with the same address, the later one replaces the earlier when the
-earlier's mask length is ≥ the later's -/
+earlier's mask length is ≥ the later's, or when the later one is an end point (at one address the end
+points come first and only the state after the last of them counts; since the repair - before it an
+end point was treated like a start point, which left two points with one key after mask lengths
+0, 81, 0) -/
 def squash : List Point → List Point → List Point
   | acc, [] => acc.reverse
   | [], p :: rest => squash [p] rest
   | prev :: acc, p :: rest =>
-    if prev.ip = p.ip ∧ prev.maskLen ≥ p.maskLen then squash (p :: acc) rest
+    if prev.ip = p.ip ∧ (prev.maskLen ≥ p.maskLen ∨ p.kind = .stop) then squash (p :: acc) rest
     else squash (p :: prev :: acc) rest
 
 /-- `Rearrange()` -/
